@@ -115,6 +115,10 @@ class Exec(ExprMixin, SpecMixin, Engine):
                 outs = [(s, mk_int(r))]
                 if self.mode == "faulty":
                     outs.insert(0, (s.copy(), exc("CompareError")))
+                    s_t = s.copy()
+                    s_t.trace.append("comparison raises TypeError")
+                    s_t.ghost["cmp_typeerror"] = True
+                    outs.insert(0, (s_t, exc("TypeError")))
                 return outs
         if name == "isinstance":
             o, c = args
@@ -241,8 +245,8 @@ class Exec(ExprMixin, SpecMixin, Engine):
             x = self.coerce(args[1], ELEM_KIND[ek] if ek != "R" else "ref")
             # Python clamps; we make "0 <= i <= len" an obligation instead
             self.oblige(s, "list.insert:index-in-range", z3.And(0 <= i, i <= n))
-            newc = z3.Lambda([j], z3.If(j < i, z3.Select(c, j),
-                                        z3.If(j == i, x, z3.Select(c, j - 1))))
+            newc = self.mk_array(j, z3.If(j < i, z3.Select(c, j),
+                                        z3.If(j == i, x, z3.Select(c, j - 1))), c)
             self.lset(s, lst.z, ek, newc, n + 1)
             if ek == "K":
                 self.hset(s, "$elems", lst.z, z3.Store(self.hget(s, "$elems", lst.z), x, True))
@@ -264,7 +268,7 @@ class Exec(ExprMixin, SpecMixin, Engine):
                     res.append((s2, i))
                     continue
                 v = SV(ELEM_KIND[ek], z3.Select(c, i))
-                newc = z3.Lambda([j], z3.If(j < i, z3.Select(c, j), z3.Select(c, j + 1)))
+                newc = self.mk_array(j, z3.If(j < i, z3.Select(c, j), z3.Select(c, j + 1)), c)
                 self.lset(s2, lst.z, ek, newc, n - 1)
                 res.append((s2, v))
             return res
@@ -274,7 +278,7 @@ class Exec(ExprMixin, SpecMixin, Engine):
                 raise Unsupported("extend with " + o.kind)
             m = self.llen(s, o.z)
             oc = self.lcontent(s, o.z, ek)
-            newc = z3.Lambda([j], z3.If(j < n, z3.Select(c, j), z3.Select(oc, j - n)))
+            newc = self.mk_array(j, z3.If(j < n, z3.Select(c, j), z3.Select(oc, j - n)), c)
             self.lset(s, lst.z, ek, newc, n + m)
             return [(s, NONE)]
         raise Unsupported("list." + name)
@@ -286,7 +290,7 @@ class Exec(ExprMixin, SpecMixin, Engine):
         if isinstance(target.slice, ast.Slice):
             res = []
             for s1, lo, hi in self.slice_bounds(s, target.slice, n):
-                newc = z3.Lambda([j], z3.If(j < lo, z3.Select(c, j), z3.Select(c, j + (hi - lo))))
+                newc = self.mk_array(j, z3.If(j < lo, z3.Select(c, j), z3.Select(c, j + (hi - lo))), c)
                 self.lset(s1, lst.z, lst.x, newc, n - (hi - lo))
                 res.append((s1, None))
             return res
@@ -296,7 +300,7 @@ class Exec(ExprMixin, SpecMixin, Engine):
                 if isinstance(i, SV):
                     res.append((s2, i))
                     continue
-                newc = z3.Lambda([j], z3.If(j < i, z3.Select(c, j), z3.Select(c, j + 1)))
+                newc = self.mk_array(j, z3.If(j < i, z3.Select(c, j), z3.Select(c, j + 1)), c)
                 self.lset(s2, lst.z, lst.x, newc, n - 1)
                 res.append((s2, None))
         return res
@@ -337,6 +341,21 @@ class Exec(ExprMixin, SpecMixin, Engine):
         if not res:
             raise Unsupported("no feasible receiver class for " + name)
         return res
+
+    def evict(self, st, obj):
+        """C05, Python side: a key comparison inside the search may run a cache
+        sweep that turns the (unchanged) node into a ghost; the next attribute
+        access reloads it into NEW list objects with the same contents.  The old
+        list objects stay alive but are no longer the node's state."""
+        was_changed = self.hget(st, "$changed", obj.z)
+        for fld, ek in (("_keys", "K"), ("_values", "V")):
+            if fld == "_values" and obj.x == "Set":
+                continue
+            old = self.hget(st, fld, obj.z)
+            new = self.new_list(st, ek, self.lcontent(st, old, ek), self.llen(st, old),
+                                elems=self.hget(st, "$elems", old) if ek == "K" else None)
+            self.hset(st, fld, obj.z, z3.If(was_changed, old, new.z))
+        st.trace.append("evicted+reloaded during search")
 
     def havoc_call(self, s, obj, name, spec, args=()):
         """Typestate view of a call (DESIGN 4.3 T-RC / P:RC): the callee may
@@ -530,6 +549,7 @@ class Exec(ExprMixin, SpecMixin, Engine):
         if self.mode == "faulty" and "CompareError" not in con.raises and \
                 not con.ghost.get("no_compare", False):
             outcomes.append(("CompareError", con.ghost.get("on_compare_error", {}), None))
+            outcomes.append(("TypeError#cmp", con.ghost.get("on_compare_error", {}), None))
         for kind, clauses, ret_spec in outcomes:
             post = s.copy()
             post.env = dict(env)
@@ -568,7 +588,12 @@ class Exec(ExprMixin, SpecMixin, Engine):
             post.trace.append("%s->%s" % (con.name.split(".")[-1], kind))
             post.env = dict(s.env)
             if kind == "normal":
+                if self.mode == "evict" and con.name.endswith("._search") and recv is not None:
+                    self.evict(post, recv)
                 res.append((post, r))
+            elif kind == "TypeError#cmp":
+                post.ghost["cmp_typeerror"] = True
+                res.append((post, exc("TypeError")))
             else:
                 res.append((post, exc(kind)))
         return res
